@@ -642,6 +642,16 @@ def cases(rng, tier):
             f = rand_irreducible_own(rng, deg, bound, monic=k % 3 != 2)
             if f is not None and ok_size(f, limit, cost): rb.append((f, None, 'random:deg%d' % deg))
     family(out, rb, rng, limit, cost, 3 if not th else 5)
+    # pure fields of degree >= 5 with wild ramification at 2 or 3 (x^n - a, a = 4, 8, 9, 12, ...): the p-radical has nilpotent
+    # elements of index up to n, so the Frobenius exponent must really reach p^j >= n (an exponent stopped at p or p^2 is
+    # wrong only here); a filtered by the generator's own irreducibility test
+    ph = []
+    for n_, as_ in ((5, (4, 8, 16, 9, 27, 12, -4, 48)), (6, (12, 24, 18, -12)), (7, (4, 8, 9))):
+        for a_ in as_:
+            f = [-a_] + [0] * (n_ - 1) + [1]
+            if ok_size(f, limit, cost * 4) and irreducible_own(f): ph.append((f, None, 'pure-deg%d' % n_))
+    if not th: ph = ph[:9]
+    family(out, ph, rng, limit, cost * 4, 1 if not th else 3)
     # degree 1
     for k in range(12 if not th else 60):
         f = [rng.randint(-50, 50), rng.choice([-1, 1]) * rng.randint(1, 30)]
